@@ -109,8 +109,57 @@ func newEngine(repo, verif string, overlay map[string][]byte) (*Engine, error) {
 	for _, fn := range e.allFuncs {
 		e.funcByShort[e.shortName(fn)] = fn
 	}
+	e.resolveClosureKeys()
 	e.resolveImmutables()
 	return e, nil
+}
+
+// resolveClosureKeys: a contract key "F${kind:what}" names the unique function literal inside F that
+// directly contains an instruction of shape "kind what" (closure ordinals shift under harmless edits).
+// A key that resolves to no or several literals is left as it is and reported as a missing anchor.
+func (e *Engine) resolveClosureKeys() {
+	var keys []string
+	for k := range e.contracts.Funcs {
+		if strings.Contains(k, "${") {
+			keys = append(keys, k)
+		}
+	}
+	sort.Strings(keys)
+	for _, k := range keys {
+		fc := e.contracts.Funcs[k]
+		i := strings.Index(fc.Key, "${")
+		j := strings.LastIndex(fc.Key, "}")
+		if i < 0 || j < i {
+			continue
+		}
+		parent := shortPkg(fc.PkgPath) + "." + fc.Key[:i] + "$"
+		shape := strings.Replace(fc.Key[i+2:j], ":", " ", 1)
+		var found []*ssa.Function
+		for _, fn := range e.allFuncs {
+			if fn.Parent() == nil || !strings.HasPrefix(e.shortName(fn), parent) {
+				continue
+			}
+			hit := false
+			for _, b := range fn.Blocks {
+				for _, ins := range b.Instrs {
+					for _, sh := range e.instrShape(ins) {
+						if sh == shape {
+							hit = true
+						}
+					}
+				}
+			}
+			if hit {
+				found = append(found, fn)
+			}
+		}
+		if len(found) != 1 {
+			continue
+		}
+		delete(e.contracts.Funcs, k)
+		fc.Key = e.keyOf(found[0])
+		e.contracts.Funcs[fc.PkgPath+" "+fc.Key] = fc
+	}
 }
 
 func isRepoPkg(p string) bool {
